@@ -1239,6 +1239,7 @@ htp_status_t htp_tx_state_response_complete_ex(htp_tx_t *tx, int hybrid_mode) {
         // that many inbound transactions have been processed, and that the parser is
         // waiting on a response that we have not seen yet.
         if ((tx->connp->in_status == HTP_STREAM_DATA_OTHER) && (tx->connp->in_tx == tx->connp->out_tx)) {
+            HTP_VERIF_TRACE(tx->connp, 2, (intptr_t) tx, 1);
             return HTP_DATA_OTHER;
         }
 
@@ -1247,6 +1248,7 @@ htp_status_t htp_tx_state_response_complete_ex(htp_tx_t *tx, int hybrid_mode) {
         if (tx->connp->out_data_other_at_tx_end) {
             // We do. Let's yield then.
             tx->connp->out_data_other_at_tx_end = 0;
+            HTP_VERIF_TRACE(tx->connp, 2, (intptr_t) tx, 2);
             return HTP_DATA_OTHER;
         }
     }
